@@ -22,4 +22,8 @@ python3 tools/t8_planned.py 64 || warn "translator T8 failed"
 (cd harness && cargo build --release --offline --no-default-features --target-dir /verif/.build/cargo-none) || warn "harness (no cargo features) does not build"
 (cd harness && cargo build --release --offline --no-default-features --features avx,sse --target-dir /verif/.build/cargo-nodebug --config profile.release.debug-assertions=false --config profile.release.overflow-checks=false) || warn "harness (release profile) does not build"
 (cd witness && cargo build --offline) || warn "witness crate does not compile against /repo"
+for fs in none sse avx; do
+  if [ $fs = none ]; then f=""; else f="--features $fs"; fi
+  (cd witness && cargo build --offline --no-default-features $f --target-dir /verif/.build/witness-$fs) || warn "witness crate does not compile with rustfft features [$fs]"
+done
 echo "setup ok"
